@@ -491,7 +491,7 @@ pub fn family(tier: Tier) -> Vec<Spec> {
     let heads = ["a", "a+", "[a,]+", "[a\\n]+", "(ab)*a", "[^a]+", "[ab]*,", "a?,+"];
     let looks = ["(?-u:\\b)", "(?-u:\\B)", "$", "(?m:$)", "(?-u:\\b{end})", "(?-u:\\b{start-half})"];
     let tails = ["", "a", ",", "a+", "[0-9]+", "\\n", "[a,]*!"];
-    let (hn, tn) = if tier == Tier::Thorough { (heads.len(), tails.len()) } else { (6, 5) };
+    let (hn, tn) = if tier == Tier::Thorough { (heads.len(), tails.len()) } else { (heads.len(), 5) };
     for h in &heads[..hn] {
         for l in looks.iter().take(if tier == Tier::Thorough { 6 } else { 4 }) {
             for t in &tails[..tn] {
